@@ -56,7 +56,7 @@ Proof.
   unfold meek_first_prefs. cbv zeta. rewrite actions_fold.
   - apply actions_fold. intros s0 b. destruct (top_rank A b); reflexivity.
   - intros s0 eb. destruct (crashed s0); [reflexivity|]. destruct (erank eb) as [|top t]; [reflexivity|].
-    destruct (floordivv A _ _); [|reflexivity]. apply actions_fold. reflexivity.
+    destruct (divv A _ _); [|reflexivity]. apply actions_fold. reflexivity.
 Qed.
 
 Lemma rule_opening r : exists f rest, rule_cmd A cfg r = Seq (Do f) rest /\
